@@ -19,6 +19,16 @@ CHECKS = {
                 "move_dist_t3; rate_t3 under |jerk|T^2<2^40, |accel|T<2^40 (superset of the firmware-valid domain by a paper argument)",
         "technique": "symbolic execution of the Python source on z3 integer terms + SMT (non-linear integer arithmetic) obligations per path, induction lemmas, counterexample replay",
     },
+    "C06": {
+        "text": "Every legacy helper (through ebb_serial.command/query) and every EBB3-layer helper is executed with symbolic "
+                "integer arguments and each optional argument absent/present against a conforming fake port; formatting yields "
+                "tokens, so the written text decodes to literal fields and terms that z3 proves equal to the documented command "
+                "(argument order, clamping 0..5, zero values present, pause chunks in 1..750 summing to n, LM suppression rule, "
+                "nothing without a port). A dropped zero shows up as a satisfiable obligation with the zero as witness.",
+        "note": "decimal rendering of integers by str.format/f-strings is a stub (token); expected texts transcribed from the "
+                "docstrings/EBB reference; pause bound n<=6000 (quick) / 48000 (thorough); integer arguments only",
+        "technique": "symbolic execution of the Python source with token strings + SMT (linear integer arithmetic) obligations per path, counterexample replay",
+    },
     "C08": {
         "text": "Symbolic execution of clip_segment/clip_code over eight unbounded reals: all feasible loop unrollings "
                 "(0-4 clips) are explored; on every path accept/reject, on-segment, orientation, inside and coverage are "
